@@ -58,7 +58,7 @@ Definition call_geom (st : sdstate) (pok : bool) (total dest cap n : Z) : Prop :
   let ps := sd_prefixSize st in
   if ps =? 0 then total = 0
   else if sd_prefixEnd st =? dest then
-    (a <= ps \/ (pok = true /\ ps < 65535 /\ a <= ps + sd_extDictSize st)) /\
+    (a <= ps \/ 65535 <= ps \/ (pok = true /\ ps < 65535 /\ a <= ps + sd_extDictSize st)) /\
     disjoint dest cap (sd_externalDict st + sd_extDictSize st - ext_need st) (ext_need st)
   else
     a <= ps /\ disjoint dest cap (sd_prefixEnd st - Z.min ps 65536) (Z.min ps 65536).
@@ -117,6 +117,64 @@ Proof.
   unfold lastn. rewrite nth_skipn_Z, skipn_length. f_equal. lia.
 Qed.
 
+(* offsets are at most 65535: the 65536th byte of the history is never referenced *)
+Lemma copy_match_drop : forall n (rout : list Z) x off res, (1 <= off <= length rout)%nat ->
+  copy_match (rout ++ [x]) off n = Some res -> exists res', copy_match rout off n = Some res' /\ res = res' ++ [x].
+Proof.
+  induction n as [|n IH]; intros rout x off res Ho H; cbn [copy_match] in *.
+  - inversion H; subst. exists rout. split; reflexivity.
+  - unfold byte in *. rewrite nth_error_app1 in H by lia.
+    destruct (nth_error rout (off - 1)) as [b|]; [|discriminate].
+    apply (IH (b :: rout) x off res); [cbn [length]; lia | exact H].
+Qed.
+
+Lemma apply_seqs_drop : forall ss (rout : list Z) x res, 65535 <= Z.of_nat (length rout) ->
+  apply_seqs (rout ++ [x]) ss = Some res -> exists res', apply_seqs rout ss = Some res' /\ res = res' ++ [x].
+Proof.
+  induction ss as [|s ss IH]; intros rout x res Hl H; cbn [apply_seqs] in *.
+  - inversion H; subst. exists rout. split; reflexivity.
+  - destruct (apply_seq (rout ++ [x]) s) as [r1|] eqn:E; [|discriminate].
+    unfold apply_seq in E |- *. destruct (off_ok (s_off s) && (4 <=? s_mlen s)) eqn:Eo; [|discriminate].
+    unfold off_ok in Eo. unfold byte in *.
+    rewrite app_assoc in E.
+    assert (Ho : (1 <= Z.to_nat (s_off s) <= length (rev (s_lits s) ++ rout))%nat).
+    { unfold byte in *. rewrite app_length. apply andb_prop in Eo. destruct Eo as [Eo _]. apply andb_prop in Eo. destruct Eo as [Eo1 Eo2].
+      apply Z.leb_le in Eo1, Eo2. lia. }
+    destruct (copy_match_drop _ _ _ _ _ Ho E) as (r1' & E1 & E2). unfold byte in *.
+    rewrite E1. subst r1. apply IH; [|exact H].
+    apply copy_match_length in E1. unfold byte in *. rewrite app_length in E1. lia.
+Qed.
+
+Lemma strict_valid_drop (x : Z) (hist B D : list Z) : 65535 <= Z.of_nat (length hist) ->
+  strict_valid (x :: hist) B = Some D -> strict_valid hist B = Some D.
+Proof.
+  intros Hl H. unfold strict_valid in *. destruct (parse_block B) as [[ss last]|]; [|discriminate].
+  destruct (end_ok ss last); [|discriminate].
+  unfold run_seqs in *. cbn [rev] in H. unfold byte in *.
+  destruct (apply_seqs (rev hist ++ [x]) ss) as [rout|] eqn:E; [|discriminate].
+  assert (Hl' : 65535 <= Z.of_nat (length (rev hist))) by (rewrite rev_length; exact Hl).
+  destruct (apply_seqs_drop _ _ _ _ Hl' E) as (rout' & E1 & E2).
+  rewrite E1. subst rout.
+  unfold byte in *. rewrite app_assoc in H. rewrite (rev_app_distr (rev last ++ rout') [x]) in H. cbn [rev app length skipn] in H. exact H.
+Qed.
+
+Lemma skipn_head : forall (l : list Z) m, (m < length l)%nat -> exists x, skipn m l = x :: skipn (S m) l.
+Proof.
+  induction l as [|a l IH]; intros m Hm; cbn [length] in Hm; [lia|].
+  destruct m as [|m]; [exists a; reflexivity|]. cbn [skipn]. apply IH. lia.
+Qed.
+
+Lemma strict_valid_65535 (H B D : list Z) : 65535 <= Z.of_nat (length H) ->
+  strict_valid (lastn (Z.to_nat 65536) H) B = Some D -> strict_valid (lastn (Z.to_nat 65535) H) B = Some D.
+Proof.
+  intros Hl Hv. destruct (Nat.eq_dec (length H) (Z.to_nat 65535)) as [E|E].
+  - rewrite lastn_all in Hv by lia. rewrite lastn_all by lia. exact Hv.
+  - unfold lastn in *.
+    destruct (skipn_head H (length H - Z.to_nat 65536)%nat ltac:(lia)) as [x Hx]. rewrite Hx in Hv.
+    replace (S (length H - Z.to_nat 65536)) with (length H - Z.to_nat 65535)%nat in Hv by lia.
+    apply (strict_valid_drop x); [rewrite skipn_length; lia | exact Hv].
+Qed.
+
 (* shape of one call: the arena changes only inside [dest, dest+cap); the bookkeeping moves as [sess_next] *)
 Lemma continue_shape fastloop am st srcm srcSize dest cap :
   let '(r, am', st', k) := decompress_safe_continue fastloop am st srcm srcSize dest cap in
@@ -159,17 +217,23 @@ Proof.
   rewrite <- (Hs (length D - S (Z.to_nat j))%nat) by lia. f_equal. lia.
 Qed.
 
-Theorem session_step fastloop am st H pok dest cap (B D : list Z) :
+(* [kk] = number of history bytes handed to the one-call theorem: 65536, or 65535 when the decoder
+   runs in withPrefix64k mode on a prefix of exactly 65535 bytes *)
+Lemma session_step_k (kk : Z) fastloop am st H pok dest cap (B D : list Z) :
+  kk = 65535 \/ kk = 65536 ->
+  (kk = 65535 -> sd_prefixSize st <> 0 /\ sd_prefixEnd st = dest /\ 65535 <= sd_prefixSize st) ->
+  (kk = 65536 -> sd_prefixSize st <> 0 -> sd_prefixEnd st = dest -> 65535 <= sd_prefixSize st ->
+   Z.min 65536 (Z.of_nat (length H)) <= sd_prefixSize st \/ sd_prefixSize st < 65535) ->
   sess_inv am st H pok -> call_geom st pok (Z.of_nat (length H)) dest cap (Z.of_nat (length D)) ->
-  strict_valid (lastn (Z.to_nat 65536) H) B = Some D -> bytes B ->
+  strict_valid (lastn (Z.to_nat kk) H) B = Some D -> bytes B ->
   let '(r, am', st', k) := decompress_safe_continue fastloop am st (mem_of_list 0 B) (Z.of_nat (length B)) dest cap in
   r = Z.of_nat (length D) /\ load_list am' dest (Z.to_nat r) = D /\
   st' = sess_next st dest (Z.of_nat (length D)) /\
   sess_inv am' st' (H ++ D) (pok_next st pok dest (Z.of_nat (length D))).
 Proof.
-  intros (Hps & Heds & HpsH & Hz & Pw & Ew) (Hn & G) Hv Hb.
-  set (hist := lastn (Z.to_nat 65536) H).
-  assert (Hhl : Z.of_nat (length hist) = Z.min 65536 (Z.of_nat (length H))).
+  intros Hkk Hk1 Hk2 (Hps & Heds & HpsH & Hz & Pw & Ew) (Hn & G) Hv Hb.
+  set (hist := lastn (Z.to_nat kk) H).
+  assert (Hhl : Z.of_nat (length hist) = Z.min kk (Z.of_nat (length H))).
   { unfold hist. rewrite lastn_length. lia. }
   assert (Hnth : forall j : nat, Z.of_nat j < Z.of_nat (length hist) -> nth j (rev hist) 0 = nth (Z.to_nat (Z.of_nat j)) (rev H) 0).
   { intros j Hj. rewrite Nat2Z.id. unfold hist. apply nth_rev_lastn; lia. }
@@ -185,12 +249,12 @@ Proof.
           rewrite Hnth by lia.
           destruct (- sd_prefixSize st <=? 0 - 1 - Z.of_nat j) eqn:Ein.
           -- replace (dest + (0 - 1 - Z.of_nat j)) with (sd_prefixEnd st - 1 - Z.of_nat j) by lia. apply Pw. lia.
-          -- destruct G1 as [G1|(Gp & G64 & G1)]; [lia|].
+          -- destruct G1 as [G1|[G1|(Gp & G64 & G1)]]; [lia|lia|].
              destruct (Ew Gp) as [_ Ew2].
              replace (sd_externalDict st + sd_extDictSize st - (- sd_prefixSize st - (0 - 1 - Z.of_nat j)))
                with (sd_externalDict st + sd_extDictSize st - 1 - (Z.of_nat j - sd_prefixSize st)) by lia.
              rewrite Ew2 by (unfold ext_need; lia). f_equal. lia.
-        * destruct (sd_prefixSize st >=? 65536 - 1) eqn:E64; destruct G1 as [G1|(Gp & G64 & G1)]; lia.
+        * destruct (sd_prefixSize st >=? 65536 - 1) eqn:E64; destruct G1 as [G1|[G1|(Gp & G64 & G1)]]; lia.
       + destruct G as [G1 G2]. split; [|lia].
         intros j Hj. rewrite rev_length in Hj.
         rewrite Hnth by lia.
@@ -263,6 +327,27 @@ Proof.
            rewrite Hpre by lia. rewrite Pw by lia.
            rewrite nth_rev_app by lia. fold n. assert (E : (n + j <? n) = false) by lia. rewrite E. f_equal. lia.
 Qed.
+
+Theorem session_step fastloop am st H pok dest cap (B D : list Z) :
+  sess_inv am st H pok -> call_geom st pok (Z.of_nat (length H)) dest cap (Z.of_nat (length D)) ->
+  strict_valid (lastn (Z.to_nat 65536) H) B = Some D -> bytes B ->
+  let '(r, am', st', k) := decompress_safe_continue fastloop am st (mem_of_list 0 B) (Z.of_nat (length B)) dest cap in
+  r = Z.of_nat (length D) /\ load_list am' dest (Z.to_nat r) = D /\
+  st' = sess_next st dest (Z.of_nat (length D)) /\
+  sess_inv am' st' (H ++ D) (pok_next st pok dest (Z.of_nat (length D))).
+Proof.
+  intros Hinv Hg Hv Hb.
+  destruct (Z.eq_dec (sd_prefixSize st) 65535) as [E1|E1];
+    [destruct (Z.eq_dec (sd_prefixEnd st) dest) as [E2|E2];
+       [destruct (Z_le_gt_dec 65536 (Z.of_nat (length H))) as [E3|E3]|]|].
+  - (* withPrefix64k on a prefix of exactly 65535 bytes, longer history: 65535 bytes are designated and suffice *)
+    apply (session_step_k 65535); try assumption; try lia.
+    apply strict_valid_65535; [lia | exact Hv].
+  - apply (session_step_k 65536); try assumption; try lia.
+  - apply (session_step_k 65536); try assumption; try lia.
+  - apply (session_step_k 65536); try assumption; try lia.
+Qed.
+
 
 (* ---- the session theorem ---- *)
 Definition expected (calls : list scall) : list (Z * list Z) :=
